@@ -141,6 +141,11 @@ def numeric_oracle(args):
         with common.time_limit(240):
             simulator.run(_MPS(n, state="x+"), prev, par, nm, parallel=False)
         par.get_state = True
+    if args.get("state_used_before"):
+        # history: the same initial-state OBJECT served an earlier noise-free run of this circuit (fresh parameter object each time)
+        par0 = StrongSimParams([Observable("z", 0)], num_traj=1, threshold=1e-13, max_bond_dim=64, show_progress=False)
+        with common.time_limit(240):
+            simulator.run(mps, qc, par0, None, parallel=False)
     with common.time_limit(240):
         simulator.run(mps, qc, par, None, parallel=False)
     out = dense.mps_dense(par.output_state)
@@ -152,7 +157,8 @@ def numeric_oracle(args):
         want = dense.expect(ref, op)
         if abs(got - want) > 1e-6:
             return (f"<{o.gate.name}> on site(s) {o.sites} is {got:.8f}, exact value {want:.8f}"
-                    + (" (parameter object used before for a noisy run)" if args.get("used_before") else ""))
+                    + (" (parameter object used before for a noisy run)" if args.get("used_before") else "")
+                    + (" (the initial-state object had served an earlier run)" if args.get("state_used_before") else ""))
     if par.num_traj != args.get("num_traj", 1):
         return f"num_traj changed from {args.get('num_traj', 1)} to {par.num_traj}"
     return None
@@ -319,6 +325,7 @@ def search(ctx):
     ]
     plan = list(fixed)
     plan += [dict(fixed[2], num_traj=6, used_before=True), dict(fixed[4], num_traj=3, used_before=True)]
+    plan += [dict(fixed[2], num_traj=25, state_used_before=True), dict(fixed[0], num_traj=1, state_used_before=True)]
     # every parametrised gate of the library at angle(s) exactly zero (u2(0,0) is NOT the identity: its rotation angle is an implicit pi/2),
     # between entanglers, from two initial states; and at pi/2
     for ang in (0.0, float(np.pi / 2)):
@@ -348,6 +355,8 @@ def search(ctx):
             a["basis"] = "".join(str(int(b)) for b in ctx.rng.integers(0, 2, size=n))
         if k % 5 == 2 and a["num_traj"] in (7,):
             a["used_before"] = True
+        if k % 5 == 4:
+            a["state_used_before"] = True
         plan.append(a)
     for a in plan:
         try:
